@@ -5,6 +5,7 @@ import (
 	"fmt"
 	"strings"
 	"sync/atomic"
+	"time"
 
 	"verif/internal/core"
 	"verif/internal/tmplx"
@@ -23,16 +24,7 @@ func (g goodStruct) Method() string { return "m<" + g.B + ">" }
 
 // c08Syntax: every node kind of text/template/parse x output contexts x data shapes; only oracle: no panic escapes.
 func c08Syntax(r *core.Run) {
-	snippets := []string{
-		`{{$.P0}}`, `{{$.P0 | html}}`, `{{html $.P0}}`, `{{html $.P0 $.P0}}`, `{{html}}`, `{{$.P0 | urlquery}}`, `{{urlquery $.P0 "x"}}`, `{{urlquery}}`,
-		`{{$.P0 | html | urlquery}}`, `{{html $.P0 | html}}`, `{{$.P0 | html | print}}`, `{{print $.P0}}`, `{{printf "%v" $.P0}}`, `{{($.P0)}}`, `{{(print $.P0) | html}}`,
-		`{{$x := $.P0}}{{$x}}`, `{{$x := $.P0}}{{$x = "y"}}{{$x}}`, `{{if $.C}}a{{else if $.C2}}b{{else}}{{$.P0}}{{end}}`,
-		`{{range $.L}}{{break}}{{end}}`, `{{range $.L}}{{continue}}{{end}}`, `{{range $i, $e := $.L}}{{$e}}{{if $i}}{{break}}{{end}}{{end}}`, `{{range $.L}}{{.}}{{else}}{{$.P0}}{{end}}`,
-		`{{/* c */}}`, `{{- $.P0 -}}`, `{{block "blk" $.P0}}{{.}}{{end}}`, `{{template "nope"}}`, `{{template "self" $}}{{define "self"}}{{if .C}}{{template "self" .}}{{end}}{{.P0}}{{end}}`,
-		`{{with $.P0}}{{.}}{{else}}e{{end}}`, `{{$.P0.Method}}`, `{{$.P0.B}}`, `{{index $.L 0}}`, `{{index $.L 9}}`, `{{len $.L}}`, `{{and $.P0 $.C}}`, `{{not $.P0}}`, `{{call $.P0}}`,
-		`{{slice $.P0 0 1}}`, `{{.P0}}`, `{{.}}`, `{{$}}`, `{{"lit<"}}`, `{{1}}`, `{{true}}`, `{{define "d"}}x{{$.P0}}{{end}}{{template "d" $}}`, `{{template "d" $.P0}}{{define "d"}}{{.}}{{end}}`,
-		`{{$.P0 | printf "%s%s" "a"}}`, `{{js $.P0}}`, `{{$.P0 | js | html}}`, `{{eq $.P0 1}}`, `{{$.P0.A.B.C}}`, `{{(index $.L 0).X}}`,
-	}
+	snippets := c08Snippets
 	contexts := []string{`%s`, `<a title="%s">`, `<a href="%s">`, `<a href="/p?q=%s">`, `<script>%s</script>`, `<textarea>%s</textarea>`, `<a %s>`, `<!--%s-->`, `<style>%s</style>`, `<a title=%s>`,
 		`<img srcset="%s">`, `<a dir="%s">`, `<a id="%s">`, `<a style="%s">`, `<%s>`, `<a title='%s' href="%s">`, `<script src="%s"></script>`, `<iframe srcdoc="%s"></iframe>`}
 	var np *string
@@ -45,12 +37,27 @@ func c08Syntax(r *core.Run) {
 	for _, t := range safeTypes {
 		shapes = append(shapes, t.mk("v<"), ptrTo(t.mk("p<")))
 	}
+	// pointer cycles: a pointer to a pointer can point to itself, or two of them to each other
+	var sp selfPtr
+	sp = &sp
+	var ca cycA
+	var cb cycB
+	ca, cb = &cb, &ca
+	str := "s<"
+	ps := &str
+	firstCyclic := len(shapes)
+	shapes = append(shapes, sp, &sp, ca, &ps, struct{ P selfPtr }{sp}, map[string]interface{}{"A": sp}, []interface{}{sp})
+	var hangSeen int32 // after the first hang the cyclic shapes are skipped: every abandoned execution keeps a core busy
 	var programs, execs, panics int64
-	type job struct{ ctx, snip string }
+	r.Set("cyclic_pointer_snippets", fmt.Sprintf("%d of %d snippets (in the others text/template itself follows the pointer cycle)", len(snippets)-len(c08StdFollowsPointer), len(snippets)))
+	type job struct {
+		ctx, snip string
+		cyc       bool
+	}
 	var jobs []job
 	for _, c := range contexts {
 		for _, s := range snippets {
-			jobs = append(jobs, job{c, s})
+			jobs = append(jobs, job{c, s, !c08StdFollowsPointer[s]})
 		}
 	}
 	core.ParallelFor(len(jobs), func(i int) {
@@ -66,8 +73,11 @@ func c08Syntax(r *core.Run) {
 			text = strings.ReplaceAll(j.ctx, "%s", body) + def
 		}
 		atomic.AddInt64(&programs, 1)
-		for _, sh := range shapes {
+		for si, sh := range shapes {
 			for _, c := range []bool{true, false} {
+				if si >= firstCyclic && (!j.cyc || atomic.LoadInt32(&hangSeen) != 0) {
+					continue
+				}
 				p, pr := tmplx.Prepare(text)
 				if pr.Kind == tmplx.Panicked {
 					atomic.AddInt64(&panics, 1)
@@ -78,8 +88,13 @@ func c08Syntax(r *core.Run) {
 					return
 				}
 				d := tmplx.Data{P0: sh, C: c, L: []interface{}{1, map[string]int{"X": 1}}}
-				res := p.Exec(&d)
+				res, hung := execGuarded(p, &d)
 				atomic.AddInt64(&execs, 1)
+				if hung {
+					atomic.StoreInt32(&hangSeen, 1)
+					r.Witness("hang", "syntax", text, fmt.Sprintf("executing %s with %T did not return within 2 x 20 s", core.Q(text), sh), map[string]string{"Program": text, "Shape": fmt.Sprintf("%T", sh)})
+					continue
+				}
 				if res.Kind == tmplx.Panicked {
 					atomic.AddInt64(&panics, 1)
 					r.Witness("panic", "syntax:"+panicClass(fmt.Sprint(res.Panic)), text, fmt.Sprintf("executing %s with %T panicked: %v", core.Q(text), sh, res.Panic), map[string]string{"Program": text, "Shape": fmt.Sprintf("%T", sh)})
@@ -90,4 +105,43 @@ func c08Syntax(r *core.Run) {
 	r.Set("syntax_sweep", fmt.Sprintf("%d snippets (every parse node kind, predefined escapers in every position) x %d contexts = %d programs x %d data shapes x 2 conditions: %d executions, %d panics", len(snippets), len(contexts), programs, len(shapes), execs, panics))
 	r.Add("states", programs)
 	r.Add("transitions", execs)
+}
+
+type selfPtr *selfPtr
+type cycA *cycB
+type cycB *cycA
+
+// execGuarded runs one execution under a generous watchdog (executions take microseconds). A timeout counts as a
+// hang only if a second attempt times out as well; the abandoned goroutines keep spinning until the process exits.
+func execGuarded(p *tmplx.Prepared, d *tmplx.Data) (tmplx.Result, bool) {
+	for attempt := 0; attempt < 2; attempt++ {
+		done := make(chan tmplx.Result, 1)
+		dd := *d
+		go func() { done <- p.Exec(&dd) }()
+		select {
+		case res := <-done:
+			return res, false
+		case <-time.After(20 * time.Second):
+		}
+	}
+	return tmplx.Result{}, true
+}
+
+var c08Snippets = []string{
+	`{{$.P0}}`, `{{$.P0 | html}}`, `{{html $.P0}}`, `{{html $.P0 $.P0}}`, `{{html}}`, `{{$.P0 | urlquery}}`, `{{urlquery $.P0 "x"}}`, `{{urlquery}}`,
+	`{{$.P0 | html | urlquery}}`, `{{html $.P0 | html}}`, `{{$.P0 | html | print}}`, `{{print $.P0}}`, `{{printf "%v" $.P0}}`, `{{($.P0)}}`, `{{(print $.P0) | html}}`,
+	`{{$x := $.P0}}{{$x}}`, `{{$x := $.P0}}{{$x = "y"}}{{$x}}`, `{{if $.C}}a{{else if $.C2}}b{{else}}{{$.P0}}{{end}}`,
+	`{{range $.L}}{{break}}{{end}}`, `{{range $.L}}{{continue}}{{end}}`, `{{range $i, $e := $.L}}{{$e}}{{if $i}}{{break}}{{end}}{{end}}`, `{{range $.L}}{{.}}{{else}}{{$.P0}}{{end}}`,
+	`{{/* c */}}`, `{{- $.P0 -}}`, `{{block "blk" $.P0}}{{.}}{{end}}`, `{{template "nope"}}`, `{{template "self" $}}{{define "self"}}{{if .C}}{{template "self" .}}{{end}}{{.P0}}{{end}}`,
+	`{{with $.P0}}{{.}}{{else}}e{{end}}`, `{{$.P0.Method}}`, `{{$.P0.B}}`, `{{index $.L 0}}`, `{{index $.L 9}}`, `{{len $.L}}`, `{{and $.P0 $.C}}`, `{{not $.P0}}`, `{{call $.P0}}`,
+	`{{slice $.P0 0 1}}`, `{{.P0}}`, `{{.}}`, `{{$}}`, `{{"lit<"}}`, `{{1}}`, `{{true}}`, `{{define "d"}}x{{$.P0}}{{end}}{{template "d" $}}`, `{{template "d" $.P0}}{{define "d"}}{{.}}{{end}}`,
+	`{{$.P0 | printf "%s%s" "a"}}`, `{{js $.P0}}`, `{{$.P0 | js | html}}`, `{{eq $.P0 1}}`, `{{$.P0.A.B.C}}`, `{{(index $.L 0).X}}`,
+}
+
+// c08StdFollowsPointer lists the snippets in which text/template itself dereferences $.P0 (field or method access,
+// or its own html / urlquery / js built-ins in a non-final position, which format their argument with printableValue).
+// The standard library follows pointers without a cycle check there, so these executions never return for a
+// pointer cycle whatever safehtml does; the pointer-cycle shapes are not combined with them.
+var c08StdFollowsPointer = map[string]bool{
+	`{{$.P0 | html}}`: true, `{{$.P0 | urlquery}}`: true, `{{$.P0.Method}}`: true, `{{$.P0.B}}`: true, `{{js $.P0}}`: true, `{{$.P0 | js | html}}`: true, `{{$.P0.A.B.C}}`: true,
 }
